@@ -160,9 +160,9 @@ def rule_move(ctx):
            "data = source.read(file); destination.write(data, new_name)", node=top[0], func=f)
     okr = len(rm) == 1 and norm(rm[0].args[0]) == "%s.path" % fi
     if okr:
-        g = parent(enclosing_stmt(rm[0]))
-        ab = arms(g, cp) if isinstance(g, ast.If) else None
-        okr = ab is not None and any(enclosing_stmt(rm[0]) is s_ for s_ in ab[1]) and (rm[0].lineno > wr[0].lineno if wr else False)
+        from ..flow import facts_at
+        fa = facts_at(enclosing_stmt(rm[0]))
+        okr = any(norm(e_) == cp and not tr_ for e_, tr_ in fa) and (flow._order(enclosing_stmt(rm[0])) > flow._order(enclosing_stmt(wr[0])) if wr else False)
     ctx.ob("FileSet._move_single_file.convert.remove", okr, "removals in the convert arm: %s" % [norm(c) for c in rm],
            "`if not copy: os.remove(file.path)` after the write - never with copy, never before the new file exists", node=rm[0] if rm else top[0], func=f)
     # plain arm
